@@ -218,7 +218,7 @@ func (g *G) callOrdK(d int, mode string, intOnly bool) Expr {
 		if d > 0 && g.R.Intn(3) == 0 {
 			return g.intOrd(d - 1)
 		}
-		if (ce.name == "h1" || ce.name == "h2" || ce.name == "h3" || ce.name == "hv") && mode == "expr" && g.R.Intn(5) == 0 {
+		if (ce.name == "h1" || ce.name == "h2" || ce.name == "h3" || ce.name == "hv") && mode == "expr" && !g.noAddr && g.R.Intn(5) == 0 {
 			// address-of operands to a Go function: the operands of the addressed expression run once
 			g.feat("addr-of-argument")
 			if g.R.Intn(3) == 0 {
@@ -307,7 +307,10 @@ func (g *G) orderStmt() []Stmt {
 		return []Stmt{&ExprStmt{X: &Call{Fn: "rd", Args: []Expr{&StrLit{V: "r"}, &Coalesce{L: g.callOrd(d, "expr"), R: &StrLit{V: "<failed>"}}}}}}
 	case r < 10:
 		g.feat("stmt-go")
+		// no pointers to live slots into a goroutine: what they show depends on timing
+		g.noAddr = true
 		c := g.callOrd(d, "go").(*Call)
+		g.noAddr = false
 		return []Stmt{&Go{C: c}}
 	case r < 12:
 		g.feat("stmt-defer")
